@@ -18,6 +18,17 @@ CONFUSABLE = ['a', 'aa', 'aaa', '1', '10', '11', '0', '00', '9']
 SPANS = [0.5, 60.0, 900.0, 900.0, 900.0, 3600.0, 86400.0]
 
 
+@st.composite
+def permutation(draw, items):
+    """ Fisher-Yates with integer draws (st.permutations cannot be driven by fuzz_one_input's byte
+    provider in Hypothesis 6.168: it always overruns). """
+    out = list(items)
+    for i in range(len(out) - 1, 0, -1):
+        j = draw(st.integers(0, i))
+        out[i], out[j] = out[j], out[i]
+    return out
+
+
 def ints(draw, lo, hi, n):
     return draw(st.lists(st.integers(lo, hi), min_size=n, max_size=n))
 
@@ -90,7 +101,7 @@ def order_rows(draw, rows, orders=('asc', 'asc', 'desc', 'shuffled', 'by_ceilo')
         return sorted(rows, key=lambda r: (-r[1], r[0], r[3]))
     if how == 'by_ceilo':
         return sorted(rows, key=lambda r: (r[0], r[1], r[3]))
-    return list(draw(st.permutations(rows)))
+    return list(draw(permutation(rows)))
 
 
 # ------------------------------------------------------------------------------------------------
@@ -160,7 +171,7 @@ def scene_exact_counts(draw):
         # target okta class -> count
         cnt = draw(st.one_of(st.integers(0, N), st.sampled_from([1, 2, 3, N - 2, N - 1, N,
                                                                   N // 8, N // 4, N // 2])))
-        perm = draw(st.permutations(range(N)))
+        perm = draw(permutation(range(N)))
         for i in perm[:cnt]:
             hits[i].append(h)
     rows = rows_from_hits(meas, hits)
